@@ -8,7 +8,7 @@ VERIF = os.path.dirname(os.path.dirname(os.path.abspath(__file__)))
 MIRSYM = "symbolic execution of rustc MIR (mirsym) + SMT (Z3)"
 
 CHECKS = {
-    "C01": dict(text="bounded symbolic execution of OptionParser::run_subparser (MIR regenerated from /repo) on symbolic item vectors of 11 conventional grammars, differential against a documentation-level reference semantics; every path is closed by Z3, one concrete member of every path is replayed natively",
+    "C01": dict(text="bounded symbolic execution of OptionParser::run_subparser (MIR regenerated from /repo) on symbolic item vectors of 21 grammars, differential against a documentation-level reference semantics; every path is closed by Z3, one concrete member of every path is replayed natively",
                 note="bounds: <=3 argv words quick / <=4 thorough (each word is 1-2 items), 12 grammars (all typed values u32); std calls replaced by listed models; rendering cut at Message::render/render_help; tokenizer image assumed (wf_tokens)",
                 tech=MIRSYM + ", differential oracle", ref="DESIGN.md 4/C01"),
     "C02": dict(text="text layer: arg::split_os_argument executed from MIR on every byte string up to the bound (all 256 byte values symbolic) and State::construct + disambiguate_short on words over a byte alphabet, both against a reference tokenization written from the documentation; token layer: relational spelling equivalence (--n v / --n=v / -n v / -n=v / -nv) and differential checks for `adjacent` arguments and aliases",
@@ -38,13 +38,13 @@ CHECKS = {
     "C10": dict(text="one Short/Long item is constrained to be the help (version) flag, everything else symbolic; Z3 shows the class is Stdout and the (cut) help renderer receives the path/Info of the innermost entered subcommand",
                 note="bounds 1..3 argv words quick / ..4 thorough, 24 grammars (incl. commands under optional().catch(), repeated and adjacent commands with their own version, a choice below depth 1, duplicate command names); for adjacent commands the expected level follows the block rule (the flag belongs to the command iff it lies in the run of items the command accepts); help together with version inside an adjacent command is assumed away; the ambiguity exception of run_inner is outside the token layer; one known finding (see known_findings.json); three defects found and fixed (188e172, 6f5c85c, 1e94030)",
                 tech=MIRSYM + ", outcome-class obligations", ref="DESIGN.md 4/C10"),
-    "C11": dict(text="in-process clause only: OptionParser::run executed from MIR with current_args / process::exit / print macros as recording models: the program body is reached iff the run yields a value (and nothing is printed), otherwise exactly one print to stdout with status 0 (help/version/completion) or to stderr with status 1 (failure); ParseFailure::exit_code on all variants; Args::current_args executed from MIR on a symbolic argv[0] path: the application name is its file name. One concrete argv per path is additionally pushed through a REAL process running run() (supporting evidence)",
+    "C11": dict(text="in-process clause only: OptionParser::run executed from MIR with current_args / process::exit / print macros as recording models: the program body is reached iff the run yields a value (and nothing is printed), otherwise exactly one print to stdout with status 0 (help/version/completion) or to stderr with status 1 (failure); with fallback_to_usage (grammar fu) stdout is reached only by the empty line or a help request; ParseFailure::exit_code on all variants; Args::current_args executed from MIR on a symbolic argv[0] path: the application name is its file name. One concrete argv per path is additionally pushed through a REAL process running run() (supporting evidence)",
                 note="the clause 'a real process behaves like run_inner for every OS argv (non-UTF-8 through execve)' is outside symbolic execution and is NOT claimed beyond the per-path real-process validation; message non-emptiness is not decided (rendering cut); print_message is related to run_inner's prediction by a kernel (same `full` flag and width reach render_console as in unwrap_stdout / unwrap_stderr, stream per class, completion text verbatim); bounds <=3 argv words quick / <=4 thorough, 4 grammars",
                 tech=MIRSYM + ", effect-recording models", ref="DESIGN.md 4/C11"),
     "C12": dict(text="the Meta tree is the symbolic input: bounded trees whose node kinds (And/Or/Optional/Required/Many/Adjacent/Subsection/Suffix/CustomUsage/Skip) and leaf kinds (flag/argument/positional/command, with or without help) are chosen through the solver; append_meta, grouping, de-duplication, write_help_item*, the Doc builders and render_console are executed from MIR and the rendered text is checked: every visible item listed exactly once with name, metavariable and help, nothing hidden / no help-less positional, CustomUsage changes nothing; per primitive the shown name is the first declared one and is accepted; descr/usage/header/items/footer order on real grammars",
                 note="bounds: depth <=2, <=2 inner nodes quick (3 thorough), unique leaf names plus `dupor` nodes (two items with the same name and help in two branches: flag vs argument, two metavariables, identical twice), Strict wrappers around positionals; usage-line normalisation not asserted; BTreeSet and Debug keys modelled injectively",
                 tech=MIRSYM + ", solver-chosen definitions + text oracle", ref="DESIGN.md 4/C12"),
-    "C13": dict(text="Doc::render_console (with the Splitter) executed from MIR on the block structures bpaf emits, text of symbolic bytes, symbolic width: inserted bytes are only spaces/newlines and the non-whitespace user bytes appear exactly once and in order (exact provenance); short form is a prefix / the whole first paragraph; with a concrete multi-word filler and max_width symbolic in 40..=48 every multi-word line is at most max_width+2 columns",
+    "C13": dict(text="Doc::render_console (with the Splitter) executed from MIR on the block structures bpaf emits (incl. the term references of error messages), text of symbolic bytes, symbolic width: inserted bytes are only spaces/newlines and the non-whitespace user bytes appear exactly once and in order (exact provenance); short form is a prefix / the whole first paragraph; with a concrete multi-word filler and max_width symbolic in 40..=48 every multi-word line is at most max_width+2 columns",
                 note="bounds: 8 templates, symbolic text <=4 bytes quick / <=5 thorough over {space,newline,a,b,é}, widths 1..=16 and 100 for content, 40..=48 for the width clause (concrete fillers: short words, and one 52-column unbreakable word among short ones); widths 49..=300, longer texts and colours are outside",
                 tech=MIRSYM + " over symbolic bytes, provenance obligations", ref="DESIGN.md 4/C13"),
     "C14": dict(text="run_subparser executed from the full-feature MIR in completion mode on 0-2 symbolic words followed by a concrete word being typed; Complete::complete, arg_matches/cmd_matches, Doc::to_completion and render_test run on real text: the outcome is always Completion; every candidate with a replacement is a visible name (preferred spelling) of the entered or an enclosing level that matches the typed word, a subcommand of the active level extending it, or the `--` hint - never a hidden name or one of a command not entered; after clean prefixes every visible not-yet-given name extending `--prefix` is offered. One concrete argv per path is validated against the native completion text",
@@ -53,7 +53,7 @@ CHECKS = {
     "C15": dict(text="the single-quote wrapper `Shell` executed from MIR (core::fmt interpreted) on every valid UTF-8 string up to the bound: the output lexes under POSIX rules as exactly one word with the input as value; render_zsh/bash/fish/simple executed from MIR on candidate and completer lists whose user-originated strings are tracked atoms: no atom reaches a zsh/bash script unquoted, every line is a complete directive, every candidate / requested completer appears exactly once",
                 note="bounds: strings <=6 bytes quick / <=8 thorough; 0-2 candidates, 0-1 completers plus five pairs incl. same-kind pairs with different masks (thorough: all pairs); reference lexers in props/C15.py; sourcing in a real shell not attempted; three defects found and fixed (7d9d288, 7f18a65, 640d5de)",
                 tech=MIRSYM + " over symbolic bytes / tracked atoms", ref="DESIGN.md 4/C15"),
-    "C16": dict(text="kernels executed from MIR over symbolic bytes: roff escape() on fragment sequences (exact provenance: inserted bytes concrete, user bytes symbolic) - no user byte starts a line as a control character, every user backslash is escaped; the Roff builder API (control / plaintext / text ...) + render on symbolic user strings incl. the double quote (the escaping mode is chosen by the executed code); html change_style for all 64 style pairs; Doc::render_html (with the Splitter) on 7 block templates - tags balanced, no user `<`/`>` reaches the output; extract_sections visits every command level exactly once",
+    "C16": dict(text="kernels executed from MIR over symbolic bytes: roff escape() on fragment sequences (exact provenance: inserted bytes concrete, user bytes symbolic) - no user byte starts a line as a control character, every user backslash is escaped; the Roff builder API (control / plaintext / text ...) + render on symbolic user strings incl. the double quote (the escaping mode is chosen by the executed code); whole manpage / html documents of a grammar whose free texts are symbolic bytes (udoc jobs, compared with the native build byte for byte); html change_style for all 64 style pairs; Doc::render_html (with the Splitter) on 7 block templates - tags balanced, no user `<`/`>` reaches the output; extract_sections visits every command level exactly once",
                 note="bounds: <=3 fragments x <=2 user bytes quick (4 x 3 thorough); html text <=4 bytes (5 thorough); section traversal (extract_sections) on 10 command trees incl. duplicate command names and a group_help group; whole documents: markdown / html / manpage of 14 corpus grammars rendered from MIR, byte-equal to the native build, one section per command level naming its visible items and no hidden one; documents of solver-chosen definitions (C12 generator with nested command levels, depth <=2); markdown cosmetics are not judged; one defect found and fixed (roff control arguments)",
                 tech=MIRSYM + " over symbolic bytes, provenance obligations", ref="DESIGN.md 4/C16"),
     "C17": dict(text="the derive macro's expansion (part of the harness crate's MIR) and the documented hand written combinator equivalent are both executed from MIR: their Meta trees and Info are structurally equal (what help is rendered from), and on every symbolic argv within the bound run_subparser of both gives equal class, value and failure kind (one joint path, Z3)",
